@@ -114,9 +114,11 @@ class StmtMixin(object):
     spec = cx.spec
     if spec is None or not getattr(spec, 'ghost', None) or cx.qual != spec.name:
       return None
-    if isinstance(node, (ast.If, ast.While, ast.For, ast.Try, ast.With, ast.FunctionDef)):
+    if isinstance(node, (ast.FunctionDef,)):
       return None
     txt = ast.unparse(node).strip()
+    if isinstance(node, (ast.If, ast.While, ast.For, ast.Try, ast.With)):
+      txt = txt.split('\n')[0].strip()      # compound statements are anchored by their header line ('before' only)
     hits = [g for g in spec.ghost if g.get('after', g.get('before')).strip() == txt]
     for g in hits:
       self.ghost_hits.add((spec.name, g.get('after', g.get('before')).strip()))
@@ -136,6 +138,8 @@ class StmtMixin(object):
   def _with_ghost(self, m, node, st, cx, ghosts):
     before = [g for g in ghosts if 'before' in g]
     ghosts = [g for g in ghosts if 'after' in g]
+    if ghosts and isinstance(node, (ast.If, ast.While, ast.For, ast.Try, ast.With)):
+      raise Unsupported("'after' ghost anchor on a compound statement (line %d)" % node.lineno)
     if before:
       self.ghost_depth += 1
       try:
@@ -623,6 +627,8 @@ class StmtMixin(object):
 
   def check_frame(self, st, base_heap, modkeys, name, node):
     """Everything outside the declared modifies set is unchanged."""
+    if '*' in modkeys:
+      return
     for k, a in st.heap.items():
       if k in modkeys or k == '$cls':
         continue
